@@ -126,6 +126,7 @@ func c01Stress(r *ev.Result, rounds int) {
 		/* Settle: every attempt has either returned (refused) or has a
 		"New connection" record for each of its directions. */
 		deadline := time.Now().Add(hworld.Watchdog)
+		unsettled := false
 		for {
 			for more := true; more; { /* Keep the terminal moving. */
 				select {
@@ -146,12 +147,25 @@ func c01Stress(r *ev.Result, rounds int) {
 				}
 			}
 			mu.Unlock()
-			if settled || time.Now().After(deadline) {
+			if settled {
+				break
+			}
+			if time.Now().After(deadline) {
+				unsettled = true
 				break
 			}
 			time.Sleep(20 * time.Microsecond)
 		}
 		n++
+		if unsettled {
+			mu.Lock()
+			state := fmt.Sprintf("first: returned %v, attached %v; second: returned %v, attached %v", isDone(0), dirs[0], isDone(1), dirs[1])
+			mu.Unlock()
+			r.Violate(ev.Violation{Signature: "free-running/attempt-neither-attached-nor-ended", Kind: "c01stress", Replay: map[string]any{"pair": fmt.Sprintf("%v", pair), "round": round},
+				What: fmt.Sprintf("real broker, idle; the attempts %v released together (free-running, round %d): %v later one of them is neither attached with all its streams nor ended (%s): a refused attempt is ended at once", pair, round, hworld.Watchdog, state)})
+			cancel()
+			break
+		}
 		mu.Lock()
 		a0, a1 := append([]string{}, dirs[0]...), append([]string{}, dirs[1]...)
 		mu.Unlock()
